@@ -425,6 +425,11 @@ func (t *threadSafeList[T]) PushBackList(other List[T]) {
 	t.mutex.Lock()
 	defer t.mutex.Unlock()
 
+	if other == List[T](t) {
+		// pushing the list onto itself: the write lock is already held, read the inner list directly
+		other = t.list
+	}
+
 	t.list.PushBackList(other)
 }
 
@@ -432,6 +437,11 @@ func (t *threadSafeList[T]) PushBackList(other List[T]) {
 func (t *threadSafeList[T]) PushFrontList(other List[T]) {
 	t.mutex.Lock()
 	defer t.mutex.Unlock()
+
+	if other == List[T](t) {
+		// pushing the list onto itself: the write lock is already held, read the inner list directly
+		other = t.list
+	}
 
 	t.list.PushFrontList(other)
 }
